@@ -42,7 +42,7 @@ struct State {
     layout_disagreement: Option<String>,
 }
 
-const BORROWED_RETURNS: [&str; 5] = ["c_ref", "c_mut", "c_group_ref", "c_group_mut", "c_nest"];
+const BORROWED_RETURNS: [&str; 6] = ["c_ref", "c_mut", "c_group_ref", "c_group_mut", "c_nest", "lend_mut"];
 const N_FAMILIES: usize = factory::N_SINGLE + 5;
 
 fn fam(name: &str) -> i64 {
